@@ -5,7 +5,7 @@ cd /repo || exit 2
 if [ -n "$(git status --porcelain -- src)" ]; then echo "repo not clean"; exit 2; fi
 git apply "$patch" || { echo "patch does not apply"; exit 2; }
 for p in "$@"; do
-  out=$(cd /verif && timeout 900 ./check "$p" --tier "${TIER:-quick}" 2>&1); rc=$?
+  out=$(cd /verif && VCHECK_EVIDENCE_DIR=/verif/engine/target/mutant-evidence timeout 900 ./check "$p" --tier "${TIER:-quick}" 2>&1); rc=$?
   echo "== $(basename "$patch") $p rc=$rc"
   echo "$out" | grep -E "VIOLATION|MACHINERY|KNOWN|^  scenario|quick:|thorough:" | cut -c1-260 | head -8
 done
